@@ -46,8 +46,10 @@ TYPES = {
         "x": fld(N("Int")), "y": fld(NN(N("Int"))), "o": fld(N("A")), "i": fld(N("I")), "l": fld(L(N("Int"))),
         "f": fld(N("Int"), [("x", N("Int"), 1)]), "s": fld(N("String")), "lu": fld(L(N("U"))),
         "la": fld(L(NN(N("A")))), "lb": fld(NN(L(N("A"))))}},
-    "B": {"kind": "OBJECT", "possible": [], "fields": {"x": fld(N("Int")), "z": fld(NN(N("Int"))), "o": fld(N("A"))}},
-    "I": {"kind": "INTERFACE", "possible": ["A", "B"], "fields": {"x": fld(N("Int"))}},
+    # B implements I.f with another default and an additional optional argument (argument values depend on the runtime type)
+    "B": {"kind": "OBJECT", "possible": [], "fields": {"x": fld(N("Int")), "z": fld(NN(N("Int"))), "o": fld(N("A")),
+                                                      "f": fld(N("Int"), [("x", N("Int"), 2), ("extra", N("Int"), 9)])}},
+    "I": {"kind": "INTERFACE", "possible": ["A", "B"], "fields": {"x": fld(N("Int")), "f": fld(N("Int"), [("x", N("Int"), 1)])}},
     "U": {"kind": "UNION", "possible": ["A", "B"], "fields": {}},
 }
 # an input object type: a plain field, a non-null field with a default, a recursive field, a list field
